@@ -153,9 +153,9 @@ func init() {
 		Assume: []string{"model.Canon for comparing encodings that differ only in map entry order"},
 		Plan: func(tier string) []core.Lane {
 			if tier == "thorough" {
-				return []core.Lane{{Lane: "plain", Cases: 30000, Shards: 16, TimeoutS: 3600}, {Lane: "race", Cases: 3000, Shards: 16, TimeoutS: 3600}}
+				return []core.Lane{{Lane: "plain", Cases: 120000, Shards: 16, TimeoutS: 7200}, {Lane: "race", Cases: 10000, Shards: 16, TimeoutS: 3600}}
 			}
-			return []core.Lane{{Lane: "plain", Cases: 1600, Shards: 16, TimeoutS: 1200}}
+			return []core.Lane{{Lane: "plain", Cases: 4000, Shards: 16, TimeoutS: 1200}}
 		},
 		Case: c06Case,
 	})
